@@ -411,8 +411,8 @@ Definition oracle_expect (e : entry) (family : string) (expect : sexp) (r : run)
   match facts_of e expect with
   | None => Some "bad-expect"
   | Some f =>
-      if Z.ltb max_recursion (tf_depth f) then
-        (if accepted r then Some "accepted-beyond-recursion-limit" else None)
+      if Z.ltb max_recursion (tf_depth f) then None   (* beyond the limit nothing is claimed here;
+                                                         the model comparison decides *)
       else if negb (accepted r) then
         Some (if String.eqb family "wide" then "wide-document-rejected" else "valid-document-rejected")
       else match r_tree r with
